@@ -480,7 +480,7 @@ func dhcpPersistence(c *core.Ctx, alpha []dEvent, hist []int, o dhcpOpts, r *dhc
 		add("persist-"+ex.Outcome.String(), fmt.Sprintf("persistence checks ended with %s: %s", ex.Outcome, firstLine(ex.Panics)))
 	}
 	if restartOK && len(want) > 0 {
-		if v := restartBehaviour(o, final, want, r.endTime); v != "" {
+		if v := restartBehaviour(o, final, want, r.endTime, r.capEnd, r.movedIDs); v != "" {
 			add("restart-behaviour", v)
 		}
 	}
@@ -489,12 +489,18 @@ func dhcpPersistence(c *core.Ctx, alpha []dEvent, hist []int, o dhcpOpts, r *dhc
 
 // restartBehaviour: the restarted handler acknowledges renewals of the owners and does not offer bound addresses to
 // another client.
-func restartBehaviour(o dhcpOpts, image []byte, want []binding, at int64) (failure string) {
+func restartBehaviour(o dhcpOpts, image []byte, want []binding, at int64, captured []bool, moved map[string]bool) (failure string) {
 	ex := vsched.Run(vsched.Config{Mode: vsched.ModeSeq, BaseTime: at}, func() {
 		concReset()
 		vfuel.Set(20_000_000)
 		vfs.Put(dFile, image)
 		s, conn := env.NewSession(dhcpNIC(), packet.Config{})
+		// only the DHCP handler restarts: the application's capture decisions are still in force
+		for k, c := range captured {
+			if c {
+				s.Capture(dClients[k])
+			}
+		}
 		h, err := dhcpConfig(o.mode).New(s)
 		if err != nil {
 			failure = "New failed: " + err.Error()
@@ -536,6 +542,20 @@ func restartBehaviour(o dhcpOpts, image []byte, want []binding, at int64) (failu
 				if r.DHCP.MsgType == 5 && r.DHCP.YIAddr == b.ip {
 					acked = true
 				}
+				if r.DHCP.MsgType == 5 {
+					// C12 after the restart: an ACK carries an address of the subnet selected by the client's capture state
+					subnet, wantRouter := dHome, dRouter
+					if s.IsCaptured(dClients[k]) {
+						subnet, wantRouter = dNetf.Masked(), dHost
+					}
+					if !subnet.Contains(r.DHCP.YIAddr) || !bytes.Equal(r.DHCP.Options[3], wantRouter.AsSlice()) {
+						failure = fmt.Sprintf("after restart the renewal of c%d (captured=%v) was acknowledged with address %v and router %v, its subnet is %v with router %v", k+1, s.IsCaptured(dClients[k]), r.DHCP.YIAddr, r.DHCP.Options[3], subnet, wantRouter)
+						return
+					}
+				}
+			}
+			if moved[b.id] {
+				continue // the client was moved to the other subnet after the acknowledgement: its renewal may be refused
 			}
 			if !acked {
 				failure = fmt.Sprintf("after restart the renewal of %v by its owner c%d was not acknowledged", b.ip, k+1)
